@@ -39,6 +39,8 @@ _RR = {}
 
 
 def rr(d):
+    """transforms are built once per worker and shared between the enumerated programs (building one costs a
+    lambdify); replay() starts from an empty table, and the call-sequence family uses the parser's own objects"""
     import sympy as sym
     from blackbird import RegRefTransform
     if d not in _RR:
@@ -117,7 +119,8 @@ def check_graph(seq, g, topo=True):
             return ("node-attributes", "node %d: %r" % (i, dict(nd)))
         kind, d = seq[i][1], seq[i][2]
         want_args, want_kw = op_args(kind, d)
-        if list(nd.get("args", [])) != want_args or dict(nd.get("kwargs", {})) != want_kw:
+        from bbv.core import observe
+        if observe.canon(list(nd.get("args", []))) != observe.canon(want_args) or observe.canon(dict(nd.get("kwargs", {}))) != observe.canon(want_kw):
             return ("node-arguments", "node %d args %r kwargs %r" % (i, nd.get("args"), nd.get("kwargs")))
     R = reference(seq)
     for i in range(N):
@@ -309,6 +312,38 @@ def sequence_tasks(depth):
     return out
 
 
+def _long_chunk(task):
+    """long programs: N operations, a chosen few of them on the watched wire (mode 0 or register q0), every other
+    operation on a wire of its own - ALL placements of 2 (and 3, for N <= 17) operations on the watched wire"""
+    from blackbird.utils import to_DiGraph
+    N, wire, first = task
+    viol = common.Violations(keep=2)
+    n = 0
+    rest = range(first + 1, N)
+    places = [(first, j) for j in rest] + ([(first, j, k) for j in rest for k in range(j + 1, N)] if N <= 17 else [])
+    for pl in places:
+        seq = []
+        for i in range(N):
+            if i in pl:
+                if wire == "mode":
+                    seq.append(((0,), "noargs", ()))
+                elif i == pl[0]:
+                    seq.append(((0,), "noargs", ()))            # the measurement of mode 0 ...
+                else:
+                    seq.append(((i + 1,), "pos" if i % 2 else "kw", (0,)))     # ... and operations elsewhere that read q0
+            else:
+                seq.append(((i + 1,), "noargs" if i % 3 else "empty", ()))
+        n += 1
+        try:
+            g = to_DiGraph(mk(seq))
+            r = check_graph(seq, g, topo=False)
+        except Exception as e:  # noqa
+            r = ("to_DiGraph-raises:" + type(e).__name__, common.exc_sig(e))
+        if r is not None:
+            viol.add("C16/long-program:" + r[0], {"seq": repr(tuple(seq))}, "N=%d placement %r on %s: %s" % (N, pl, wire, r[1]))
+    return n, viol.records()
+
+
 def run(ctx):
     Vs = common.Violations(keep=5)
     total = nontrivial = 0
@@ -335,6 +370,15 @@ def run(ctx):
     for t, r in zip(texts, pool.pmap(_loaded, texts, chunk=20)):
         if r is not None and r != "TIMEOUT":
             Vs.add(r[0], {"text": t}, r[1])
+    ltasks = [(N, wire, first) for N in ((9, 12, 17, 33) if ctx.quick else (9, 10, 12, 16, 17, 24, 33, 40, 65)) for wire in ("mode", "register") for first in range(N - 1)]
+    nlong = 0
+    for r in pool.pmap(_long_chunk, ltasks, chunk=2, timeout=3600):
+        if r == "TIMEOUT":
+            continue
+        nlong += r[0]
+        Vs.merge(r[1])
+    total += nlong
+    bounds.append({"family": "long programs: N operations with ALL placements of 2 (N <= 17: also 3) operations on one watched wire (a mode / a measured register), every other operation on a wire of its own", "N": sorted({t[0] for t in ltasks}), "programs": nlong})
     seqs = sequence_tasks(3 if ctx.quick else 4)
     for tk, r in zip(seqs, pool.pmap(_sequence, seqs, chunk=40)):
         if r is not None and r != "TIMEOUT":
@@ -358,6 +402,7 @@ def replay(case):
         return (r is not None), repr(r)
     if case["seq"] == "chunk":
         return False, "n/a"
+    _RR.clear()
     seq = ast.literal_eval(case["seq"])
     try:
         g = to_DiGraph(mk(seq))
